@@ -70,7 +70,41 @@ pub fn golden_history(ps: u64, num_pages: usize) -> History {
     History { pagesize: ps, num_pages, strict: false, populate: false, txs: vec![tx(t1), tx(t2), tx(t3)], origin: format!("golden history at page size {}", ps) }
 }
 
-fn follow_ups() -> Vec<TxScript> {
+fn follow_ups(extra: usize, ps: u64) -> Vec<TxScript> {
+    let put = |h: H, k: &str, tag: u64, len: usize| Op::Put { h, k: K::lit(k.as_bytes()), v: V { tag, len }, how: How::Slice, vhow: How::Slice };
+    let mut v = scripted_follow_ups();
+    // a long tail of small and medium commits: the free list is consumed, refilled and rewritten at
+    // every length on the way, values of many sizes (including exact page multiples) are written
+    let p = ps as usize;
+    for i in 0..extra {
+        let mut ops = vec![Op::TxGet { k: K::lit(b"alpha"), how: How::Slice }];
+        let len = match i % 6 {
+            0 => (i * 37) % 600,
+            1 => p - 64 + (i % 9) * 8,
+            2 => 2 * p + (i % 16) * 8,
+            3 => 8 + (i % 11) * 8,
+            4 => p / 2 + i,
+            _ => 3 * p + 128 - (i % 5) * 64,
+        };
+        ops.push(put(0, &format!("fu{:02}", i % 9), 20_000 + i as u64, len));
+        if i % 3 == 1 {
+            ops.push(Op::Delete { h: 0, k: K::lit(format!("fu{:02}", (i + 4) % 9).as_bytes()) });
+        }
+        if i % 5 == 2 {
+            ops.push(Op::TxGetOrCreate { k: K::lit(b"tmp"), how: How::Slice });
+            for j in 0..(3 + i % 4) {
+                ops.push(put(1, &format!("t{}", j), 30_000 + (i * 10 + j) as u64, 40 + 90 * j));
+            }
+        }
+        if i % 5 == 4 {
+            ops.push(Op::TxDelete { k: K::lit(b"tmp"), how: How::Slice });
+        }
+        v.push(TxScript { ops, end: if i % 13 == 7 { End::Rollback } else { End::Commit }, reopen: i % 8 == 5 });
+    }
+    v
+}
+
+fn scripted_follow_ups() -> Vec<TxScript> {
     let put = |h: H, k: &str, tag: u64, len: usize| Op::Put { h, k: K::lit(k.as_bytes()), v: V { tag, len }, how: How::Slice, vhow: How::Slice };
     vec![
         TxScript { ops: vec![Op::TxGet { k: K::lit(b"alpha"), how: How::Slice }, put(0, "key0001", 9001, 500), put(0, "new-key", 9002, 64), Op::Delete { h: 0, k: K::lit(b"key0002") }], end: End::Commit, reopen: false },
@@ -139,6 +173,13 @@ fn sweep_wrong_sizes(ctx: &Ctx, shard: &mut Shard, path: &Path, bytes: &[u8], ps
     let mut refused = 0;
     let mut sizes: Vec<u64> = (128..=1024u64).map(|k| k * 8).step_by(stride).collect();
     sizes.extend([12288u64, 16384, 32768, 65536]);
+    // requests that are NOT a multiple of 8 right next to the real size (a builder that rounds a request
+    // instead of refusing it would open the file with them), and next to other common sizes
+    for d in 1..8u64 {
+        sizes.push(ps - d);
+        sizes.push(ps + d);
+    }
+    sizes.extend([ps - 9, ps + 9, ps / 2 + 1, 2 * ps - 1, 4095, 4097, 1025]);
     for other in sizes {
         if other == ps {
             continue;
@@ -172,6 +213,7 @@ struct St {
     fuzzed_padding_files: u64,
     small_file_mismatches_refused: u64,
     wide_sweep_refused: u64,
+    legacy_commit_count_files: u64,
 }
 
 fn check_file(ctx: &Ctx, shard: &mut Shard, st: &mut St, golden: &Path, ps: u64, legacy: bool, manifest: &MBucket, scratch: &Scratch) {
@@ -236,12 +278,15 @@ fn check_file(ctx: &Ctx, shard: &mut Shard, st: &mut St, golden: &Path, ps: u64,
     let mut model = manifest.clone();
     let r = util::catch(|| -> Result<(), String> {
         let mut db = exec::open_db(&path, &h).map_err(|e| e.to_string())?;
-        for (i, t) in follow_ups().iter().enumerate() {
+        let n_extra = if ctx.thorough() { 240 } else { 48 };
+        for (i, t) in follow_ups(n_extra, ps).iter().enumerate() {
             exec::exec_tx(&mut run, &db, &path, t, i, &mut model);
             if run.out.aborted {
                 break;
             }
-            st.followup_commits += 1;
+            if t.end == End::Commit {
+                st.followup_commits += 1;
+            }
             if t.reopen {
                 drop(db);
                 db = exec::open_db(&path, &h).map_err(|e| format!("reopen after commit {}: {}", i, e))?;
@@ -359,8 +404,12 @@ pub fn run(ctx: &Ctx) -> Shard {
             shard.distinct.insert(hh);
             shard.nontrivial.insert(hh);
             let replay = serde_json::json!({"kind": "history", "history": h});
-            if out.aborted {
-                shard.inconclusive(format!("replaying the golden history at page size {} disagreed with the model (C01 territory)", ps));
+            if let Some(v) = out.violations.first() {
+                // the current code cannot write (or read back) the golden history at a page size the
+                // property quantifies over: no conforming file is produced
+                shard.violation(ctx, &format!("layout:cannot-produce-golden-history:{}", v.sig), &format!("[page size {}] {}", ps, v.detail), &replay);
+            } else if out.aborted {
+                shard.inconclusive(format!("replaying the golden history at page size {} was cut short without a recorded disagreement", ps));
             } else if let Ok(bytes) = std::fs::read(&path) {
                 let rep = fileck::check(&bytes, ps);
                 st.produced_files_parsed += 1;
@@ -372,7 +421,7 @@ pub fn run(ctx: &Ctx) -> Shard {
             }
             let _ = std::fs::remove_file(&path);
             if shard.samples.len() < 2 {
-                shard.sample(serde_json::json!({"golden_page_size": ps, "entries_in_manifest": manifest.total_entries(), "checks": ["independent reader vs manifest", "open + full read", "3 further commits + reopen + fileck + DB::check", "7 mismatching page sizes refused, bytes unchanged", "same history written by current code parsed by the pinned-layout reader"]}));
+                shard.sample(serde_json::json!({"golden_page_size": ps, "entries_in_manifest": manifest.total_entries(), "checks": ["independent reader vs manifest", "open + full read", "3 scripted + 48 (quick) / 240 (thorough) generated further transactions with reopen, rollback, fileck + DB::check after each commit", "7 mismatching page sizes refused, bytes unchanged", "same history written by current code parsed by the pinned-layout reader"]}));
             }
         }
     }
@@ -387,6 +436,11 @@ pub fn run(ctx: &Ctx) -> Shard {
         h.txs[0].ops.truncate(12);
         let path = scratch.fresh("small");
         let out = exec::run_history(&h, &ExecCfg::default(), &path);
+        if let Some(v) = out.violations.first() {
+            let replay = serde_json::json!({"kind": "history", "history": h});
+            shard.violation(ctx, &format!("layout:cannot-produce-small-file:{}", v.sig), &format!("[{} x {} pages] {}", ps, np, v.detail), &replay);
+            continue;
+        }
         if out.aborted {
             shard.inconclusive(format!("could not build the small {}x{} file", ps, np));
             continue;
@@ -423,6 +477,43 @@ pub fn run(ctx: &Ctx) -> Shard {
         st.wide_sweep_refused += sweep_wrong_sizes(ctx, &mut shard, &path, &leg, *ps, &format!("a small legacy-format file ({} x {} pages)", ps, np), stride);
         let _ = std::fs::remove_file(&path);
     }
+    // legacy-header files with 1..5 commits (so that the newest legacy header sits in slot 0 and in slot 1
+    // in turn), made by writing the golden history's first transactions with the current code and
+    // re-encoding both headers; each must open with the expected contents and accept further commits
+    for (li, (ps, n_commits)) in [(1024u64, 1usize), (1024, 2), (1024, 3), (4096, 1), (4096, 2), (5000, 2), (5000, 3), (16384, 1), (1024, 4), (4096, 5)].iter().enumerate() {
+        if (li as u64 + 6) % ctx.nshards != ctx.shard {
+            continue;
+        }
+        let mut h = golden_history(*ps, 64);
+        // pad / cut to the wanted number of commits
+        let extra = TxScript { ops: vec![Op::TxGetOrCreate { k: K::lit(b"pad"), how: How::Slice }, Op::Put { h: 0, k: K::lit(b"p"), v: V { tag: 77, len: 20 }, how: How::Slice, vhow: How::Slice }], end: End::Commit, reopen: false };
+        while h.txs.len() < *n_commits {
+            h.txs.push(extra.clone());
+        }
+        h.txs.truncate(*n_commits);
+        let path = scratch.fresh("leg");
+        let out = exec::run_history(&h, &ExecCfg::default(), &path);
+        if out.aborted || !out.violations.is_empty() {
+            shard.inconclusive(format!("could not build the {}-commit file at page size {}", n_commits, ps));
+            continue;
+        }
+        let mut model = MBucket::default();
+        crate::c06::replay_model(&h, &mut model);
+        let bytes = std::fs::read(&path).unwrap_or_default();
+        let leg = to_legacy(&bytes, *ps);
+        let lpath = scratch.path(&format!("legacy-{}-{}c.db", ps, n_commits));
+        std::fs::write(&lpath, &leg).expect("write legacy");
+        let _ = std::fs::remove_file(&path);
+        shard.evaluations += 1;
+        let hh = util::fnv64(format!("legacy-commits|{}|{}", ps, n_commits).as_bytes());
+        shard.distinct.insert(hh);
+        shard.nontrivial.insert(hh);
+        let newest_slot = fileck::choose_meta(&leg, *ps).0.map(|m| m.slot);
+        shard.set("legacy_files_by_commit_count(pagesize,commits,newest_slot)", format!("ps={} commits={} newest legacy header in slot {:?}", ps, n_commits, newest_slot));
+        st.legacy_commit_count_files += 1;
+        check_file(ctx, &mut shard, &mut st, &lpath, *ps, true, &model, &scratch);
+        let _ = std::fs::remove_file(&lpath);
+    }
     // golden files (mid-history free lists, stale pages) in the legacy format against the wide sweep
     for (gi, ps) in [1024u64, 4096, 5000, 16384].iter().enumerate() {
         if (gi as u64 + 3) % ctx.nshards != ctx.shard {
@@ -437,6 +528,7 @@ pub fn run(ctx: &Ctx) -> Shard {
         }
     }
     shard.count("wrong_page_sizes_refused_in_wide_sweep", st.wide_sweep_refused);
+    shard.count("legacy_files_with_1_to_5_commits_checked", st.legacy_commit_count_files);
     shard.count("golden_files_with_garbage_in_uninitialised_padding", st.fuzzed_padding_files);
     shard.count("small_file_page_size_mismatches_refused", st.small_file_mismatches_refused);
     shard.count("golden_files_checked", st.files);
